@@ -43,6 +43,9 @@ pub enum HFault {
     Payload { rev: usize, num: u32, data: Vec<u8> },
     /// one dictionary entry removed (a required entry that is absent)
     DropKey { site: Site },
+    /// one entry of a stream dictionary set (or added): a /Length that disagrees with the data, a
+    /// /Filter array of 1000 stages, /DecodeParms of mismatching length
+    StreamKey { rev: usize, num: u32, key: String, text: String },
 }
 
 const PAYLOADS: [&str; 42] = [
@@ -84,6 +87,7 @@ impl HFault {
             HFault::LenRef { .. } => "length_ref",
             HFault::Payload { .. } => "payload",
             HFault::DropKey { .. } => "drop_key",
+            HFault::StreamKey { .. } => "stream_key",
         }
     }
     pub fn to_json(&self) -> J {
@@ -95,6 +99,7 @@ impl HFault {
             HFault::LenRef { rev, num, target } => json!({"kind": "length_ref", "rev": rev, "num": num, "target": target}),
             HFault::Payload { rev, num, data } => json!({"kind": "payload", "rev": rev, "num": num, "data": String::from_utf8_lossy(data)}),
             HFault::DropKey { site } => json!({"kind": "drop_key", "site": site_json(site)}),
+            HFault::StreamKey { rev, num, key, text } => json!({"kind": "stream_key", "rev": rev, "num": num, "key": key, "text": text.chars().take(80).collect::<String>(), "len": text.len()}),
         }
     }
     pub fn from_json(j: &J) -> Option<HFault> {
@@ -106,6 +111,7 @@ impl HFault {
             "length_ref" => HFault::LenRef { rev: j.get("rev")?.as_u64()? as usize, num: j.get("num")?.as_u64()? as u32, target: j.get("target")?.as_u64()? as u32 },
             "payload" => HFault::Payload { rev: j.get("rev")?.as_u64()? as usize, num: j.get("num")?.as_u64()? as u32, data: j.get("data")?.as_str()?.as_bytes().to_vec() },
             "drop_key" => HFault::DropKey { site: site_from(j.get("site")?)? },
+            "stream_key" => HFault::StreamKey { rev: j.get("rev")?.as_u64()? as usize, num: j.get("num")?.as_u64()? as u32, key: j.get("key")?.as_str()?.to_string(), text: j.get("text")?.as_str()?.to_string() },
             _ => return None,
         })
     }
@@ -239,6 +245,15 @@ pub fn single_faults(spec: &DocSpec) -> Vec<HFault> {
                 for pl in PAYLOADS {
                     out.push(HFault::Payload { rev: ri, num, data: pl.as_bytes().to_vec() });
                 }
+                for b in BOUNDARIES {
+                    out.push(HFault::StreamKey { rev: ri, num, key: "@Length".into(), text: b.to_string() });
+                }
+                let many = format!("[{}]", "/ASCIIHexDecode ".repeat(1000));
+                for (k, t) in [("Filter", many.as_str()), ("Filter", "[/FlateDecode /FlateDecode /LZWDecode /RunLengthDecode /ASCII85Decode]"), ("Filter", "[]"), ("Filter", "/Crypt"), ("Filter", "/JBIG2Decode"), ("Filter", "/JPXDecode"),
+                    ("DecodeParms", "[null null null]"), ("DecodeParms", "[<< /Predictor 15 /Columns 0 >>]"), ("DecodeParms", "<< /Predictor 2 /Colors 0 /BitsPerComponent 0 /Columns 0 >>"), ("DecodeParms", "<< /K -1 /Columns 65535 /Rows 65535 >>"),
+                    ("DecodeParms", "<< /JBIG2Globals 1 0 R >>"), ("F", "<< /EF << /F 1 0 R >> >>"), ("FFilter", "/FlateDecode")] {
+                    out.push(HFault::StreamKey { rev: ri, num, key: k.into(), text: t.to_string() });
+                }
             }
             // every dictionary entry (top level and one level down) removed
             if let Some(Val::Dict(d)) = slot_val(slot) {
@@ -327,6 +342,12 @@ pub fn apply(spec: &DocSpec, faults: &[HFault]) -> DocSpec {
                         b"@paren_run" => vec![b'('; 150_000],
                         _ => data.clone(),
                     };
+                }
+            }
+            HFault::StreamKey { rev, num, key, text } => {
+                if let Some(Slot::Direct { body: Body::Stream { dict, .. }, .. }) = s.revisions.get_mut(*rev).and_then(|r| r.slots.get_mut(num)) {
+                    dict.retain(|(k, _)| k != key);
+                    dict.push((key.clone(), Val::Raw(text.clone())));
                 }
             }
             HFault::DropKey { site } => {
@@ -437,7 +458,7 @@ impl Check for C14 {
         CheckInfo {
             id: "C14",
             level: "fault_enumeration",
-            rule: "one case = a typed template (page tree; name tree + number tree + outlines; Type0/CID/simple fonts with /W, /Differences, ToUnicode; colour spaces with all four function types; stream /Length references, predictors, LZW, CCITT/DCT image parameters; hand-written object stream with /Extends under an xref stream; two-revision files with classic and stream sections; /Encrypt dictionaries; the 'rich' document) + structure-aware at-rest faults written through the harness's writer: retarget (every reference field x every object incl. itself, object 0 and an undefined number), boundary (every numeric field x {-1, 0, 1, 2^31-1, 2^32-1, 2^64-1}), nest (25 levels), stream /Length reference retargeted, stream data replaced by 40 small hostile payloads (PostScript calculator programs, CMaps, content streams, object-stream headers), every dictionary entry removed, hostile /Size /Prev (incl. self-loop) /Root /W /Index /Length of trailer and xref stream; x {strict, tolerant} x {cached, uncached} x {2 MiB, 8 MiB stack} x {no bytes, some bytes before the header}; walked by the C01 walker under the same meters in a supervised worker process. Enumerated part: the complete single-fault space of all templates (both tiers); plus seeded cases with 2-3 simultaneous faults (100 000 quick, 2 000 000 thorough). Non-trivial = outcome differs from the unfaulted template; distinct = hash of (template, faults, configuration)",
+            rule: "one case = a typed template (page tree; name tree + number tree + outlines; Type0/CID/simple fonts with /W, /Differences, ToUnicode; colour spaces with all four function types; stream /Length references, predictors, LZW, CCITT/DCT image parameters; hand-written object stream with /Extends under an xref stream; two-revision files with classic and stream sections; /Encrypt dictionaries; the 'rich' document) + structure-aware at-rest faults written through the harness's writer: retarget (every reference field x every object incl. itself, object 0 and an undefined number), boundary (every numeric field x {-1, 0, 1, 2^31-1, 2^32-1, 2^64-1}), nest (25 levels), stream /Length reference retargeted, stream data replaced by 40 small hostile payloads (PostScript calculator programs, CMaps, content streams, object-stream headers), every dictionary entry removed, hostile stream dictionary entries (/Length disagreeing with the data, /Filter arrays of 1000 stages, mismatching /DecodeParms), hostile /Size /Prev (incl. self-loop) /Root /W /Index /Length of trailer and xref stream; x {strict, tolerant} x {cached, uncached} x {2 MiB, 8 MiB stack} x {no bytes, some bytes before the header}; walked by the C01 walker under the same meters in a supervised worker process. Enumerated part: the complete single-fault space of all templates (both tiers); plus seeded cases with 2-3 simultaneous faults (100 000 quick, 2 000 000 thorough). Non-trivial = outcome differs from the unfaulted template; distinct = hash of (template, faults, configuration)",
             assumptions: vec![
                 "planting the hostile structure is generation (stated as such); the simulation part is the resource side: stack size, allocator cap and meters, log-event budget, worker process death".into(),
                 "same resource bounds as C01".into(),
@@ -446,7 +467,7 @@ impl Check for C14 {
             components_real: vec!["pdf crate (all of it)", "globalcache SyncCache", "process allocator (metered) and thread stacks of the stated sizes"],
             components_stub: vec![],
             per_run_timeout_s: 20,
-            required_probes: vec!["fault_retarget", "fault_boundary", "fault_nest", "fault_xref_field", "fault_length_ref", "fault_payload", "fault_drop_key", "outcome_changed"],
+            required_probes: vec!["fault_retarget", "fault_boundary", "fault_nest", "fault_xref_field", "fault_length_ref", "fault_payload", "fault_drop_key", "fault_stream_key", "outcome_changed"],
             exhaustive: false,
         }
     }
